@@ -280,7 +280,7 @@ ZIn(n, s, c) == LET z == Z(n, c) IN [z EXCEPT !.s = s, !.c = c]
 (***************************************************************************)
 (* Parse                                                                    *)
 (***************************************************************************)
-RECURSIVE P(_, _, _), PB(_, _, _), PStructLoop(_, _, _, _, _, _), PSeqLoop(_, _, _, _, _, _), PLazyLoop(_, _, _, _, _, _), ActualSz(_, _, _),
+RECURSIVE P(_, _, _), PB(_, _, _), PStructLoop(_, _, _, _, _, _), PSeqLoop(_, _, _, _, _, _), PLazyLoop(_, _, _, _, _, _), PLazyArrLoop(_, _, _, _, _, _, _), ActualSz(_, _, _),
           PArrayLoop(_, _, _, _, _, _, _), PGreedyLoop(_, _, _, _, _, _), PRepeatLoop(_, _, _, _, _, _),
           PSelectLoop(_, _, _, _, _), PUnionLoop(_, _, _, _, _, _, _, _), PFocusedLoop(_, _, _, _, _, _, _, _),
           NTScan(_, _, _, _, _)
@@ -391,6 +391,10 @@ PB(n, s, c) ==
                      IF hit.ok THEN ROk(hit.v, r.s, r.c, <<>>) ELSE RErr("MappingError", r.s, r.c, <<>>))
       [] n.k = "Struct" ->
             LET r == PStructLoop(n.subs, 1, s, Push(c), VEmptyDict, <<>>) IN [r EXCEPT !.c = Pop(@)]
+      [] n.k = "LazyArray" ->    \* elements are skipped by their size where it can be told, parsed otherwise (no _index: the elements are not run)
+            Then(IntParam(n.count, s, c), LAMBDA cnt :
+                IF cnt.v < 0 THEN RErr("RangeError", cnt.s, cnt.c, <<>>)
+                ELSE Then(STell(cnt.s, cnt.c), LAMBDA o : PLazyArrLoop(n.sub, 0, cnt.v, o.s, o.c, o.v, <<>>)))
       [] n.k = "LazyStruct" ->   \* members are skipped by their size where it can be told, parsed (and entered in the context) otherwise
             Then(STell(s, c), LAMBDA o :
                 LET r == PLazyLoop(n.subs, 1, o.s, Push(o.c), o.v, <<>>) IN [r EXCEPT !.c = Pop(@)])
@@ -590,6 +594,20 @@ PStructLoop(subs, i, s, c, obj, ev) ==
                                      IF nm # "" THEN DSet(obj, nm, r.v) ELSE obj, ev \o r.ev)
             ELSE IF r.err = "StopFieldError" THEN ROk(obj, r.s, r.c, ev \o r.ev)
             ELSE [r EXCEPT !.ev = ev \o @]
+PLazyArrLoop(sc, i, cnt, s, c, off, ev) ==
+    IF i >= cnt THEN ROk([t |-> "opaque", r |-> "LazyListContainer"], s, c, ev)
+    ELSE IF i >= Fuel THEN RErr(OutOfModel, s, c, ev)
+    ELSE LET a == ActualSz(sc, s, c) IN
+         IF a.ok THEN LET k == SSeek(a.s, c, off + a.v, 0) IN
+                      IF ~k.ok THEN [k EXCEPT !.ev = ev \o a.ev] ELSE PLazyArrLoop(sc, i + 1, cnt, k.s, c, off + a.v, ev \o a.ev)
+         ELSE IF a.err # "SizeofError" THEN [a EXCEPT !.c = c, !.ev = ev \o @]
+         ELSE LET k == SSeek(a.s, c, off, 0) IN
+              IF ~k.ok THEN [k EXCEPT !.ev = ev \o a.ev]
+              ELSE LET r == P(sc, k.s, c) IN
+                   IF ~r.ok THEN [r EXCEPT !.ev = ev \o a.ev \o @]
+                   ELSE LET t == STell(r.s, r.c) IN
+                        IF ~t.ok THEN [t EXCEPT !.ev = ev \o a.ev \o r.ev]
+                        ELSE PLazyArrLoop(sc, i + 1, cnt, t.s, r.c, t.v, ev \o a.ev \o r.ev)
 PLazyLoop(subs, i, s, c, off, ev) ==
     IF i > Len(subs) THEN ROk([t |-> "opaque", r |-> "LazyContainer"], s, c, ev)
     ELSE LET a == ActualSz(subs[i], s, c) IN
@@ -833,7 +851,7 @@ BB(n, obj, s, c) ==
             LET o == IF obj.t = "none" THEN VList([i \in 1..Len(n.subs) |-> VNone]) ELSE obj IN
             IF o.t # "list" THEN RErr(IF o.t \in {"bytes", "str", "dict"} THEN OutOfModel ELSE TypeErrOr(o), s, c, <<>>)
             ELSE LET r == BSeqLoop(n.subs, 1, o.xs, s, Push(c), <<>>, <<>>) IN [r EXCEPT !.c = Pop(@)]
-      [] n.k = "Array" ->
+      [] n.k \in {"Array", "LazyArray"} ->
             Then(IntParam(n.count, s, c), LAMBDA cnt :
                 IF cnt.v < 0 THEN RErr("RangeError", cnt.s, cnt.c, <<>>)
                 ELSE IF obj.t # "list" THEN RErr(IF obj.t \in {"bytes", "str", "dict", "enumstr"} THEN OutOfModel ELSE TypeErrOr(obj), cnt.s, cnt.c, <<>>)
@@ -1042,7 +1060,7 @@ BSeqLoop(subs, i, xs, s, c, rets, ev) ==
 BArrayLoop(n, i, xs, s, c, rets, ev) ==
     IF i > Len(xs) THEN ROk(VList(rets), s, c, ev)
     ELSE LET r == B(n.sub, xs[i], s, SetCur(c, "_index", VInt(i - 1))) IN
-         IF r.ok THEN BArrayLoop(n, i + 1, xs, r.s, r.c, IF n.discard THEN rets ELSE Append(rets, r.v), ev \o r.ev)
+         IF r.ok THEN BArrayLoop(n, i + 1, xs, r.s, r.c, IF "discard" \in DOMAIN n /\ n.discard THEN rets ELSE Append(rets, r.v), ev \o r.ev)
          ELSE [r EXCEPT !.ev = ev \o @]
 BGreedyLoop(n, i, xs, s, c, rets, ev) ==
     IF i > Len(xs) THEN ROk(VList(rets), s, c, ev)
